@@ -97,6 +97,11 @@ impl Monitor for Mon {
             if !class_a {
                 any_gap_or_idle = true;
             }
+            if unspecified {
+                // a frame the statement is silent about was heard earlier in this operation: the reference can no
+                // longer follow the device until it is re-synchronised at the end of the operation
+                continue;
+            }
             match &d.verdict {
                 Verdict::Accept { n, fport, plain, fopts, .. } => {
                     // probes
@@ -208,7 +213,12 @@ impl Monitor for Mon {
                     }
                 }
                 Verdict::JoinAccept(_) => {}
-                Verdict::Unspecified(_) => unspecified = true,
+                Verdict::Unspecified(_) => {
+                    unspecified = true;
+                    // whatever it carried may or may not be answered
+                    self.expect_devstatus = None;
+                    self.class_a_req_pending = true;
+                }
             }
         }
 
